@@ -17,8 +17,9 @@ open Extracted.Plugins
 
 /-- what `order()` of a constructed plugin does -/
 inductive Order where
-  | value (o : Option Num)    -- returns a number (int, bool, finite float), or `None`
-  | unusable                  -- raises, or returns something that is not a number
+  | value (o : Option Num)    -- returns a number (exact type int / bool / finite float), or (`none`) something FALSY
+                              -- that is not a number: `None`, '', [], {} — `order() or 0` runs before the number test
+  | unusable                  -- raises, or returns something TRUTHY that is not a number
 deriving DecidableEq, Repr
 
 /-- one configured plugin name, with what happens when the loader tries it -/
